@@ -852,7 +852,30 @@ inductive Reach (cmp : K → K → Int) (ops : List (Op K V)) (c0 : Config K V) 
 def Terminal (cmp : K → K → Int) (ops : List (Op K V)) (c : Config K V) : Prop :=
   ∀ i, stepAt cmp ops c i = none
 
-/-- **data race**: two different goroutines whose next accesses conflict -/
+/-- **data race**: two different goroutines whose next accesses conflict.
+
+*Why "both enabled in one configuration" is all there is* (audit C01R-F7; the first-race argument, written down).
+The Go memory model calls two conflicting accesses of different goroutines a data race when neither happens before
+the other. The operations modelled here contain no synchronisation, so happens-before between goroutines is empty
+during the concurrent phase: ANY two conflicting accesses `a` (goroutine `i`, step `p` of some run) and `b`
+(goroutine `j ≠ i`, step `q > p`) are a race in that sense, however far apart. Claim: then some reachable
+configuration satisfies `Race`, so `¬ Race` on every reachable configuration (`concurrent_puts_race_free`) excludes all
+of them. Proof: among such pairs of the run take one with `q` minimal and, for that `q`, `p` maximal. Run the same
+schedule up to (not including) step `p`, then the steps between `p` and `q` *of the goroutines other than `i`*, in
+their order. Each of these steps (goroutine `k`, originally step `r`, `p < r < q`) does what it did in the original
+run: `k`'s private state is the same (induction on `r`; before `p` the runs coincide), and the location it accesses
+holds the same value — the two memories differ at most in locations that `i` wrote in steps `[p, r)`, and if `k`'s
+access touched one of those it would conflict with a write of `i` at an earlier step: a pair with second component
+`r < q`, contradicting the minimality of `q`. So the shortened run is a run; at its end goroutine `j` is about to
+perform `b` (its private state is that of step `q`) and goroutine `i` is still about to perform `a` (it has not moved
+since step `p`): both enabled, conflicting — `Race`. The argument uses exactly two properties of `next`/`accessOf`,
+both by construction of `next` (each clause reads or writes the one field `accessOf` names, `mopExec`/`itNext` included)
+and observed on the real code by `c01acc` (comparator arguments, value slots read, raw slots written per call):
+the successor of a private state depends on the memory only at the location `accessOf` names, and the memory changes
+only there, and only if the access is a write. The argument is machine-checked for every system of that shape
+(`Proofs/FirstRace.lean`: `no_conflicting_accesses_of_race_free`, re-exported as
+`Props.C01Race.race_free_configurations_exclude_all_data_races`); what is not a Lean theorem is the instantiation — the
+locality lemma for all clauses of `next`. -/
 def Race (c : Config K V) : Prop :=
   ∃ (i j : Nat) (a b : Access), i ≠ j ∧ (c.pcs[i]?).bind accessOf = some a ∧ (c.pcs[j]?).bind accessOf = some b ∧ conflict a b = true
 
